@@ -3,6 +3,7 @@
 package main
 
 import (
+	"runtime/pprof"
 	"encoding/json"
 	"flag"
 	"fmt"
@@ -44,6 +45,8 @@ type HarnessReport struct {
 	SolverS     float64             `json:"solver_s"`
 	Observes    [][]string          `json:"observes,omitempty"`
 	Truncated   bool                `json:"truncated"`
+	CacheHits   int                 `json:"cache_hits"`
+	EnumQueries int                 `json:"enum_queries"`
 }
 
 type Report struct {
@@ -73,8 +76,15 @@ func main() {
 	quiet := flag.Bool("quiet", true, "suppress target output")
 	tags := flag.String("tags", "verif", "build tags")
 	tier := flag.Int("tier", 0, "0 quick, 1 thorough (vTier())")
+	noCache := flag.Bool("no-cache", false, "disable the per-worker query cache")
+	cpuprof := flag.String("cpuprofile", "", "write CPU profile")
 	flag.Parse()
 	interp.Tier = *tier
+	if *cpuprof != "" {
+		f, _ := os.Create(*cpuprof)
+		pprof.StartCPUProfile(f)
+		defer pprof.StopCPUProfile()
+	}
 
 	rep := &Report{Dir: *dir, Solver: *solver}
 	fail := func(err error) {
@@ -141,7 +151,7 @@ func main() {
 		}
 	}
 
-	opts := interp.Options{MaxSteps: *maxSteps, Unwind: *unwind, SolverKind: *solver, SolverTO: *timeout, Quiet: *quiet, Trace: *trace, Known: knownRegions}
+	opts := interp.Options{MaxSteps: *maxSteps, Unwind: *unwind, SolverKind: *solver, SolverTO: *timeout, Quiet: *quiet, Trace: *trace, Known: knownRegions, NoCache: *noCache}
 
 	re := regexp.MustCompile(*run)
 	var names []string
@@ -216,6 +226,9 @@ func main() {
 		}
 	}
 	writeReport(*out, rep)
+	if *cpuprof != "" {
+		pprof.StopCPUProfile()
+	}
 	os.Exit(exit)
 }
 
@@ -303,6 +316,8 @@ func runHarness(ws []*interp.Worker, name string, maxPaths int) *HarnessReport {
 				hr.ByStatus[res.Status]++
 				hr.Steps += res.Steps
 				hr.SymBranches += res.SymBranches
+				hr.CacheHits += res.CacheHits
+				hr.EnumQueries += res.EnumQueries
 				for k, v := range res.Proved {
 					hr.Proved[k] += v
 				}
